@@ -245,6 +245,10 @@ impl RuntimeData {
     }
 
     pub fn free_object(&mut self, obj: NonNull<CaoLangObject>) {
+        #[cfg(feature = "verif-hooks")]
+        if crate::verif::in_gc() {
+            crate::verif::emit(|| crate::verif::Event::GcFree { addr: obj.as_ptr() as usize });
+        }
         unsafe {
             std::ptr::drop_in_place(obj.as_ptr());
             self.memory
@@ -312,6 +316,12 @@ impl RuntimeData {
             objects: self.object_list.len(),
             allocated: self.memory.allocated.load(std::sync::atomic::Ordering::Relaxed),
         });
+        #[cfg(feature = "verif-hooks")]
+        if crate::verif::wants_snapshots() {
+            let snap = self.verif_snapshot();
+            crate::verif::emit(|| crate::verif::Event::GcSnapshot(Box::new(snap)));
+            crate::verif::set_in_gc(true);
+        }
         // mark all roots for collection
         let mut progress_tracker = Vec::with_capacity(self.value_stack.len());
         for val in self.value_stack.iter() {
@@ -451,6 +461,8 @@ impl RuntimeData {
                 }
             }
         }
+        #[cfg(feature = "verif-hooks")]
+        crate::verif::set_in_gc(false);
         #[cfg(feature = "verif-hooks")]
         crate::verif::emit(|| crate::verif::Event::GcEnd {
             objects: self.object_list.len(),
